@@ -19,8 +19,10 @@ RULE = (
     "Hypothesis draws a history of 1..8 operations on one SparseNdArray(dim 1..3, value_dim 1..2): "
     "add(coords, values, additive) with batches of 0..5 integer coordinates from a box of side 2..4 per axis "
     "(negative coordinates included; duplicates inside and across batches are therefore frequent), integer "
-    "values in [-9, 9] (sums exact in float64), values given as (value_dim, n) array or flat 1-d array when "
-    "value_dim = 1; get(coords) with 1..4 coordinates from the same box (present, absent, repeated). Oracle: "
+    "values in [-9, 9] or quarters of them (sums exact in float64), given as (value_dim, n) array or flat 1-d array "
+    "when value_dim = 1, of dtype float64 / int64 / int32 / float32 or as (nested) python list, dtypes mixed across "
+    "the batches of one history (integer first batch followed by fractional writes and vice versa); coordinate "
+    "arrays int64 or int32; get(coords) with 1..4 coordinates from the same box (present, absent, repeated). Oracle: "
     "a Python dict updated sequentially (overwrite: last occurrence wins; additive: sum); after every add all "
     "model keys are read back and compared exactly; a get containing a never-inserted coordinate must raise "
     "ValueError. Non-trivial = history with at least one add that hits an already stored coordinate or has a "
@@ -39,13 +41,17 @@ LEVEL_NOTE = ("Histories of at most 8 operations, batches of at most 5 coordinat
 DESIGN_REF = "DESIGN.md section 4, C46"
 ASSUMPTIONS = [
     "coordinates are integer arrays of length dim (the documented input form)",
-    "values are integer-valued floats so that additive accumulation is exact",
+    "values are integers or quarters (exact in float32 / float64) so that additive accumulation is exact",
+    "the docstring promises no dtype for stored values: the model holds the value written (float64), a later fractional write is not truncated",
     "get is never called with an empty coordinate list (not a documented use)",
 ]
 REQUIRED = {
     "additive": 0.2, "overwrite": 0.2, "dup-in-batch": 0.15, "update-existing": 0.3,
     "update-existing-multi": 0.05, "get-absent": 0.1, "get-present": 0.1, "vdim2": 0.15,
     "dim1": 0.15, "dim2": 0.15, "dim3": 0.15, "batch>=3-new": 0.05,
+    "values-int-first": 0.1, "values-int-first-overwrite-nodup": 0.03, "values-mixed-dtypes": 0.3,
+    "values-fractional": 0.15, "values-fractional-after-int-first": 0.05, "values-int64": 0.1, "values-int32": 0.05,
+    "values-float32": 0.05, "values-list": 0.05, "values-2d-array": 0.3, "coords-int32": 0.1,
 }
 
 
@@ -67,11 +73,13 @@ def _history(draw, tier):
             n = draw(st.sampled_from([0, 1, 1, 2, 2, 3, 3, 4, 5]))
             cs = draw(st.lists(coord, min_size=n, max_size=n))
             vals = [draw(st.lists(st.integers(-9, 9), min_size=n, max_size=n)) for _ in range(vdim)]
+            vdtype = draw(st.sampled_from(["float64", "float64", "int64", "int64", "int32", "float32", "list"]))
+            den = 1 if vdtype in ("int64", "int32") else draw(st.sampled_from([1, 1, 4, 4]))
             ops.append({"op": "add", "coords": cs, "values": vals, "additive": draw(st.booleans()),
-                        "flat": vdim == 1 and draw(st.booleans())})
+                        "flat": vdim == 1 and draw(st.booleans()), "vdtype": vdtype, "den": den})
         else:
             ops.append({"op": "get", "coords": draw(st.lists(coord, min_size=1, max_size=4))})
-    return {"dim": dim, "vdim": vdim, "ops": ops}
+    return {"dim": dim, "vdim": vdim, "ops": ops, "cdtype": draw(st.sampled_from(["int64", "int64", "int32"]))}
 
 
 def strategy(tier):
@@ -128,8 +136,21 @@ KNOWN = {
 
 
 # ----------------------------------------------------------------------------- check
-def _as_coords(cs):
-    return [np.array(c, dtype=int) for c in cs]
+def _values_arg(op, vals):
+    """The `values` argument as the caller would pass it: (vdim, n) or flat (n,) array of the drawn dtype, or a
+    (nested) python list.  `vals` is the float64 (vdim, n) array of the values written (integers / den)."""
+    vd = op.get("vdtype", "float64")
+    v = vals[0] if op["flat"] else vals
+    if vd == "list":
+        out = v.tolist()
+        if op.get("den", 1) == 1:  # integer-valued python ints
+            out = [int(x) for x in out] if op["flat"] else [[int(x) for x in row] for row in out]
+        return out
+    return v.astype({"float64": np.float64, "float32": np.float32, "int64": np.int64, "int32": np.int32}[vd])
+
+
+def _as_coords(cs, cdtype="int64"):
+    return [np.array(c, dtype=np.int32 if cdtype == "int32" else np.int64) for c in cs]
 
 
 def check(spec):
@@ -142,12 +163,16 @@ def check(spec):
     if vdim == 2:
         labels.add("vdim2")
     nontrivial = False
+    cdt = spec.get("cdtype", "int64")
+    labels.add("coords-" + cdt)
+    first_int = None
+    seen_dtypes = set()
 
     def read_all(step):
         if not model:
             return
         keys = sorted(model)
-        got = arr.get(_as_coords(keys))
+        got = arr.get(_as_coords(keys, cdt))
         exp = np.array([model[k] for k in keys], dtype=float).T.reshape(vdim, len(keys))
         if np.asarray(got).shape != exp.shape or not np.array_equal(got, exp):
             bad = [k for i, k in enumerate(keys)
@@ -160,7 +185,26 @@ def check(spec):
         cs = [tuple(c) for c in op["coords"]]
         if op["op"] == "add":
             n = len(cs)
-            vals = np.array(op["values"], dtype=float).reshape(vdim, n)
+            vals = np.array(op["values"], dtype=float).reshape(vdim, n) / float(op.get("den", 1))
+            vd = op.get("vdtype", "float64")
+            labels.add("values-" + vd)
+            is_int = vd in ("int64", "int32") or (vd == "list" and op.get("den", 1) == 1)
+            if n:
+                if first_int is None:
+                    first_int = is_int
+                    if is_int:
+                        labels.add("values-int-first")
+                        if not op["additive"] and len(set(cs)) == n:
+                            labels.add("values-int-first-overwrite-nodup")
+                seen_dtypes.add(vd)
+                if len(seen_dtypes) >= 2:
+                    labels.add("values-mixed-dtypes")
+                if op.get("den", 1) != 1 and np.any(vals != np.round(vals)):
+                    labels.add("values-fractional")
+                    if first_int:
+                        labels.add("values-fractional-after-int-first")
+                if not op["flat"]:
+                    labels.add("values-2d-array")
             labels.add("additive" if op["additive"] else "overwrite")
             if len(set(cs)) < n:
                 labels.add("dup-in-batch")
@@ -177,7 +221,7 @@ def check(spec):
                 labels.add("empty-batch")
             if op["flat"]:
                 labels.add("flat-values")
-            arr.add(_as_coords(cs), vals[0].copy() if op["flat"] else vals.copy(), additive=op["additive"])
+            arr.add(_as_coords(cs, cdt), _values_arg(op, vals), additive=op["additive"])
             for i, c in enumerate(cs):
                 if op["additive"] and c in model:
                     model[c] = [a + b for a, b in zip(model[c], vals[:, i].tolist())]
@@ -189,7 +233,7 @@ def check(spec):
             if absent:
                 labels.add("get-absent")
                 try:
-                    got = arr.get(_as_coords(cs))
+                    got = arr.get(_as_coords(cs, cdt))
                 except ValueError:
                     pass
                 else:
@@ -200,7 +244,7 @@ def check(spec):
                 labels.add("get-present")
                 if len(set(cs)) < len(cs):
                     labels.add("get-repeated")
-                got = arr.get(_as_coords(cs))
+                got = arr.get(_as_coords(cs, cdt))
                 exp = np.array([model[c] for c in cs], dtype=float).T.reshape(vdim, len(cs))
                 require(np.asarray(got).shape == exp.shape, "get-shape",
                         f"op {step}: get({cs}) has shape {np.asarray(got).shape}, expected {exp.shape}")
